@@ -138,6 +138,17 @@ def gen_cases(rng, tier):
         yield C.as_factory(corr_case(r_irt, [sc], uns, outs, encrypted=True))
     for _ in range(100 if tier == "quick" else 2000):
         yield C.as_factory(random_mix(rng))
+    # … and through the third one, response_factory(...) + verify() (its second load is AuthnResponse.loads since fix
+    # f342ca56; before, a Response InResponseTo that is absent / unknown / another request's passed when the bearer
+    # confirmation named an outstanding request): the complete correlation product, two confirmations, random mixes
+    for r_irt, sc, uns, outs in itertools.product(IRT, IRT, (False, True), OUTSTANDING):
+        for binding in ("post", "redirect"):
+            yield C.via_entry(corr_case(r_irt, [sc], uns, outs, binding), "response_factory")
+        yield C.via_entry(corr_case(r_irt, [sc], uns, outs, encrypted=True), "response_factory")
+    for r_irt, sc1, sc2, uns in itertools.product(IRT, IRT, IRT, (False, True)):
+        yield C.via_entry(corr_case(r_irt, [sc1, sc2], uns, "many"), "response_factory")
+    for _ in range(100 if tier == "quick" else 2000):
+        yield C.via_entry(random_mix(rng), "response_factory")
     # the correlation product for a Response element WITHOUT its optional Issuer child
     for r_irt, sc, uns, outs in itertools.product(IRT, IRT, (False, True), OUTSTANDING):
         c = corr_case(r_irt, [sc], uns, outs, "post")
